@@ -37,6 +37,9 @@ EXPLANATION = (
     "R-tr-loop-state -- per-iteration locals of the generator loops are defined in the same iteration on every path before use; "
     "R-tr-memo-scope -- no class- / module-level container is written by translator code unless keyed by the described object; "
     "R-tr-ident-intact -- identifiers in templates may be padded but never truncated (format precision, constant-length prefix); "
+    "R-tr-name-scope -- a bare name resolves as loop variable > known temporary > new temporary (store only); "
+    "R-tr-dims-order -- unpacked dimensions are declared outermost array first, the order in which accesses index the name; "
+    "R-tr-const-inline -- a back-end that declares no constants inlines or rejects every constant-array access; "
     "R-layout-agree -- struct literals / concat / struct construction put the first field (argument) most significant and "
     "packed-array element 0 least significant. "
     "NOT decided: cycle-for-cycle behavioural equivalence of arbitrary designs, syntactic validity of arbitrary emitted text "
@@ -53,10 +56,11 @@ ASSUMPTIONS = [
 RULES = [partial(f, backend=BACKEND) for f in (
     T.rule_hooks, T.rule_handlers, T.rule_optable, T.rule_assign, T.rule_slice, T.rule_width_cast, T.rule_conn,
     T.rule_sigexpr, T.rule_for, T.rule_modname, T.rule_constcache, T.rule_layout, T.rule_index_queue, T.rule_dedup_scope,
-    T.rule_loop_state, T.rule_memo_scope, T.rule_ident_intact)]
+    T.rule_loop_state, T.rule_memo_scope, T.rule_ident_intact, T.rule_name_scope, T.rule_dims_order, T.rule_const_inline)]
 for _f, _g in zip(RULES, (T.rule_hooks, T.rule_handlers, T.rule_optable, T.rule_assign, T.rule_slice, T.rule_width_cast,
                           T.rule_conn, T.rule_sigexpr, T.rule_for, T.rule_modname, T.rule_constcache, T.rule_layout,
-                          T.rule_index_queue, T.rule_dedup_scope, T.rule_loop_state, T.rule_memo_scope, T.rule_ident_intact)):
+                          T.rule_index_queue, T.rule_dedup_scope, T.rule_loop_state, T.rule_memo_scope, T.rule_ident_intact,
+                          T.rule_name_scope, T.rule_dims_order, T.rule_const_inline)):
     _f.__name__ = _g.__name__
 
 
@@ -238,6 +242,21 @@ MUTANTS = [
     _m('subcomp-explicit-name-ignored', VS4, "        elif subcomp_explicit_name:\n", "        elif False and subcomp_explicit_name:\n", 'R-tr-modname'),
     _m('defaults-wrong-offset', T.RTYPE, "defaults[idx-len(arg_names)]", "defaults[idx-num_defaults]", 'R-tr-modname'),
     _m('defaults-offset-by-supplied', T.RTYPE, "defaults[idx-len(arg_names)]", "defaults[idx-num_supplied]", 'R-tr-modname'),
+    # chained assignments / name resolution / dimension order
+    # re-introductions of the chained-assignment defect on a tree that carries the repair (stale otherwise)
+    _m('chain-copy-reevaluates-rhs', VB1, "    source = targets[-1] if node.blocking else value\n", "    source = value\n", 'R-tr-assign'),
+    _m('chain-copy-also-when-nonblocking', VB1, "    source = targets[-1] if node.blocking else value\n", "    source = targets[-1]\n", 'R-tr-assign'),
+    _m('chain-targets-in-source-order', VB1, "    ) for target in reversed(targets) ]", "    ) for target in targets ]", 'R-tr-assign'),
+    _m('tmpvar-lookup-before-loopvar', GEN2, "      if node.id in s.loop_var_env:\n        ret = bir.LoopVar( node.id )\n      elif node.id in s.tmp_var_env:\n        ret = bir.TmpVar( node.id, s._upblk_name )\n",
+       "      if node.id in s.tmp_var_env:\n        ret = bir.TmpVar( node.id, s._upblk_name )\n      elif node.id in s.loop_var_env:\n        ret = bir.LoopVar( node.id )\n", 'R-tr-name-scope'),
+    _m('unknown-name-load-becomes-tmpvar', GEN2, "      elif isinstance( node.ctx, ast.Load ):", "      elif False and isinstance( node.ctx, ast.Load ):", 'R-tr-name-scope'),
+    _m('loop-var-never-unregistered', GEN2, "    s.loop_var_env.remove( loop_var_name )\n", "", 'R-tr-name-scope'),
+    _m('ifc-port-dims-before-ifc-dims', VS3, "unpacked_type = array_type['unpacked_type'] + tr['unpacked_type']", "unpacked_type = tr['unpacked_type'] + array_type['unpacked_type']",
+       'R-tr-dims-order'),
+    _m('subcomp-port-dims-before-comp-dims', VS4, "f\"{c_array_type['unpacked_type']}{dscp['unpacked_type']}\"", "f\"{dscp['unpacked_type']}{c_array_type['unpacked_type']}\"",
+       'R-tr-dims-order'),
+    _m('subcomp-ifc-port-dims-swapped', VS4, "          'unpacked_type' : ifc_array_type['unpacked_type']+port_array_type['unpacked_type'],\n      }]",
+       "          'unpacked_type' : port_array_type['unpacked_type']+ifc_array_type['unpacked_type'],\n      }]", 'R-tr-dims-order'),
     # R-tr-index-queue
     _m('index-base-visited-before-index', VB1, "    idx   = s.visit( node.idx )\n    value = s.visit( node.value )\n    Type = node.value.Type",
        "    value = s.visit( node.value )\n    idx   = s.visit( node.idx )\n    Type  = node.value.Type", 'R-tr-index-queue'),
@@ -285,6 +304,9 @@ MUTANTS = [
 ]
 
 EQUIV = [
+    _m('name-lookup-tests-nested', GEN2, "      if node.id in s.loop_var_env:\n        ret = bir.LoopVar( node.id )\n      elif node.id in s.tmp_var_env:\n        ret = bir.TmpVar( node.id, s._upblk_name )\n",
+       "      if node.id in s.loop_var_env:\n        ret = bir.LoopVar( node.id )\n      elif node.id in s.tmp_var_env and node.id not in s.loop_var_env:\n        ret = bir.TmpVar( node.id, s._upblk_name )\n"),
+    _m('ifc-dims-as-fstring', VS3, "unpacked_type = array_type['unpacked_type'] + tr['unpacked_type']", "unpacked_type = f\"{array_type['unpacked_type']}{tr['unpacked_type']}\""),
     _m('array-type-reset-before-branch', T.G_S1, "      if isinstance( rtype, rt.Array ):\n        array_type = rtype\n        port_rtype = rtype.get_sub_type()\n      else:\n        array_type = None\n        port_rtype = rtype\n",
        "      array_type, port_rtype = None, rtype\n      if isinstance( rtype, rt.Array ):\n        array_type = rtype\n        port_rtype = rtype.get_sub_type()\n"),
     _m('components-dict-by-constructor-call', T.G_RTLIR_TR, "      s.hierarchy.components = {}\n", "      s.hierarchy.components = dict()\n"),
